@@ -96,3 +96,16 @@ Example C16_witness :
   forallb wf_item items = true /\
   run_printf (fun _ => false) value (show items) = Ok [91; 50; 32; 32; 32; 32; 124; 110; 97; 109; 101; 93; 9; 37; 65; 92].
 Proof. vm_compute. split; reflexivity. Qed.
+
+(* A precision ("%.3p", "%10.5d"; outside the property's quantifier, inside the format language): at most that many characters of the
+   value - for the numbers %d and %m at least that many digits, zeros in front, and none at all for 0 under ".0". *)
+Theorem C16_precision : forall d p v,
+  ((Nat.eqb d 100 || Nat.eqb d 109) = false -> with_precision d p v = firstn p v /\ length (with_precision d p v) <= p) /\
+  ((Nat.eqb d 100 || Nat.eqb d 109) = true -> (Nat.eqb p 0 && match v with [48] => true | _ => false end) = false ->
+     with_precision d p v = repeat 48 (p - length v) ++ v /\ p <= length (with_precision d p v)).
+Proof.
+  intros d p v. unfold with_precision. split.
+  - intros ->. split; [reflexivity|]. rewrite firstn_length. apply Nat.le_min_l.
+  - intros -> ->. split; [reflexivity|]. rewrite app_length, repeat_length. apply Nat.sub_add_le.
+Qed.
+Print Assumptions C16_precision.
